@@ -52,7 +52,7 @@ def storableUser (u : User) : Bool :=
 hostmask of one matched by / matching a hostmask of the other -/
 def noClash (E : Env) (p q : Nat × User) : Bool :=
   E.lower p.2.name != E.lower q.2.name &&
-  q.2.hostmasks.all (fun h => p.2.hostmasks.all (fun o => !E.hm o h && !E.hm h o))
+  q.2.hostmasks.all (fun h => p.2.hostmasks.all (fun o => !E.hm o h && !E.hmx h o))
 
 /-- users in ascending id order, each storable, pairwise compatible -/
 def storableUsers (E : Env) (us : List (Nat × User)) : Bool :=
